@@ -68,6 +68,9 @@ def run(ctx):
     _lines(ctx, F)
     _magnetic(ctx, F)
     _cromer(ctx, F)
+    # evaluation of the analytic form factor and the (symbol, charge) -> record key (shared with C05-R4)
+    from .C05 import _cromer as evaluation_and_keys
+    evaluation_and_keys(ctx, F, R="R6")
     ctx.extra["exhaustive"] = True
 
 
@@ -298,11 +301,17 @@ def _magnetic(ctx, F):
            site="periodictable/magnetic_ff.py, cromermann.py", sample={"functions": nfun})
     MF = I.get_class("magnetic_ff.MagneticFormFactor")
     m = I.instantiate(MF, [], {}, name="mff", open_attrs=())
-    w.set(m, j0=(A, a, B, b, C, c, D), j2=(D, c, C, b, B, a, A))
+    perm = {"j2": (D, c, C, b, B, a, A), "j4": (B, a, A, b, C, c, D), "j6": (C, c, B, b, A, a, D)}
+    w.set(m, j0=(A, a, B, b, C, c, D), **perm)
     eq(ctx, "R4", "M_Q evaluates <j0>", I.call(I.getattr(m, "M_Q"), [q], {}), expr, site)
     eq(ctx, "R4", "M is <j0>", sum(I.getattr(m, "M")), A + a + B + b + C + c + D, site)
-    eq(ctx, "R4", "j2_Q evaluates <j2> with the s^2 factor", I.call(I.getattr(m, "j2_Q"), [q], {}),
-       s2 * (D * sp.exp(-c * s2) + C * sp.exp(-b * s2) + B * sp.exp(-a * s2) + A), site)
+    for jn, (c1, e1, c2, e2, c3, e3, c4) in perm.items():
+        want = s2 * (c1 * sp.exp(-e1 * s2) + c2 * sp.exp(-e2 * s2) + c3 * sp.exp(-e3 * s2) + c4)
+        rr = raises(lambda: I.call(I.getattr(m, jn + "_Q"), [q], {}))
+        if rr is not None:
+            ctx.fail("R4", f"{jn}_Q evaluates <{jn}> with the s^2 factor", f"raises {rr}", site)
+        else:
+            eq(ctx, "R4", f"{jn}_Q evaluates <{jn}> with the s^2 factor", I.call(I.getattr(m, jn + "_Q"), [q], {}), want, site)
     # lint of the real data
     data = F.const("magnetic_ff", "CFML_DATA").replace("&\n", "")
     syms = {v[1] for v in F.const("core", "element_base").values()}
@@ -334,7 +343,7 @@ def _magnetic(ctx, F):
               f"{badl[:3]}", "periodictable/magnetic_ff.py CFML_DATA", sample={"lines": n})
     ctx.check(not j0bad, "R4", "every <j0> form factor is 1 at Q = 0 within 0.5 % (A+B+C+D)", f"{j0bad[:5]}",
               "periodictable/magnetic_ff.py CFML_DATA")
-    ctx.floor("R4", 38)
+    ctx.floor("R4", 40)
 
 
 # ------------------------------------------------------------------------------- Cromer-Mann
